@@ -1,5 +1,6 @@
 (* C01 — lemmas about the model of mixing / splitting / separating / copying / scaling *)
 From V Require Import Common.NumFacts C01.Model.
+From V Require Export C01.Phases.
 From Coq Require Import Morphisms.
 
 (* ---------- specification vocabulary ---------- *)
@@ -14,7 +15,7 @@ Definition tot (s : stream) (c : nat) : Q := rows_tot (spkg s) (srows s) c.
 Definition wf_pkg (p : pkg) : Prop := NoDup (cas p).
 Definition wf_stream (s : stream) : Prop :=
   wf_pkg (spkg s) /\ (forall r, In r (srows s) -> length r = psize (spkg s)) /\
-  length (sphases s) = length (srows s) /\ NoDup (map prank (sphases s)).
+  length (sphases s) = length (srows s) /\ ssorted (sphases s).
 (* streams of one store: a package identity determines the package ("is") *)
 Definition coherent (a b : pkg) : Prop := pid a = pid b -> a = b.
 Definition wf_store (st : store) : Prop :=
@@ -502,15 +503,6 @@ Proof.
   destruct (isempty (snd js)) eqn:E; simpl.
   - rewrite IH by (intros; apply H; right; auto). rewrite (isempty_tot _ c E). lra.
   - rewrite IH by (intros; apply H; right; auto). lra.
-Qed.
-
-Lemma qsum_map_ext {A} (f g : A -> Q) l : (forall x, In x l -> f x == g x) ->
-  qsum (map f l) == qsum (map g l).
-Proof.
-  induction l as [|x l IH]; intros H; [reflexivity|].
-  cbn [map qsum fold_right]. change (fold_right Qplus 0 (map f l)) with (qsum (map f l)).
-  change (fold_right Qplus 0 (map g l)) with (qsum (map g l)).
-  rewrite IH by (intros; apply H; right; auto). rewrite (H x (or_introl eq_refl)). reflexivity.
 Qed.
 
 Lemma mix_noeb st r ins hf rs all : gets st r = Ok rs -> gets_all st ins = Ok all ->
